@@ -52,10 +52,14 @@ theorem build_table_eq : build_table = buildTable ∧ kt_mode_pinned_dynamic = t
 
 /-- Magic offsets and half lengths -/
 theorem magic_offset_pos_eq (offset : Int) : magic_offset_pos offset = magicOffPos offset := by
-  simp only [magic_offset_pos, magicOffPos, Int.fmod_eq_emod_of_nonneg _ (by decide : (0 : Int) ≤ 2), beq_iff_eq]
+  have h : offset % 2 = 0 ∨ offset % 2 = 1 := by omega
+  rcases h with h | h <;>
+    simp [magic_offset_pos, magicOffPos, Int.fmod_eq_emod_of_nonneg _ (by decide : (0 : Int) ≤ 2), h] <;> omega
 
 theorem magic_offset_neg_eq (offset : Int) : magic_offset_neg offset = magicOffNeg offset := by
-  simp only [magic_offset_neg, magicOffNeg, Int.fmod_eq_emod_of_nonneg _ (by decide : (0 : Int) ≤ 2), beq_iff_eq]
+  have h : offset % 2 = 0 ∨ offset % 2 = 1 := by omega
+  rcases h with h | h <;>
+    simp [magic_offset_neg, magicOffNeg, Int.fmod_eq_emod_of_nonneg _ (by decide : (0 : Int) ≤ 2), h] <;> omega
 
 theorem magic_poslen_eq (n : Int) : magic_poslen n = magicPosLen n := by
   unfold magic_poslen magicPosLen
